@@ -25,6 +25,9 @@ func ZZ_C17_CheckAction() {
 	rs, fs := replica.ZZServer(state, 2)
 	s := NewServer(rs)
 	zzAction = zzActionNames[zzConcretize(zzChoice("action", len(zzActionNames)))]
+	// a form-encoded body may carry its own "action" parameter; the router dispatches on
+	// the URL query, so the URL's action alone decides whether the request is valid
+	zzFormAction = zzPick("form.action", "", "close", "start", "setlogging", "resize")
 	called := false
 	t := func(rw http.ResponseWriter, req *http.Request) error { called = true; return nil }
 	entries := replica.ZZEntries(fs)
